@@ -70,6 +70,20 @@ def exn_name(exc):
     return type(exc).__name__
 
 
+def jv(v):
+    """a value as the model sees it: int or None; anything else cannot match"""
+    if v is None or type(v) is int:
+        return v
+    return -999999
+
+
+def jl(vs):
+    try:
+        return [jv(x) for x in vs]
+    except TypeError:
+        return [-999999]
+
+
 # ------------------------------------------------------------------ chunks
 def run_chunks(c):
     try:
@@ -94,14 +108,14 @@ def run_async(c):
     except ValueError:
         b = None
     return dict(raised=None, k=res._chunksize, batches=b, left=res._number_left,
-                ready=res.ready(), incache=res._job in stub._cache, value=list(res._value))
+                ready=res.ready(), incache=res._job in stub._cache, value=jl(res._value))
 
 
 # --------------------------------------------------------------------- map
 def run_map(c):
     cache = {}
     cbs, ecbs = [], []
-    cb = (lambda v: cbs.append(list(v))) if c['cb'] else None
+    cb = (lambda v: cbs.append(jl(v))) if c['cb'] else None
     ecb = (lambda e: ecbs.append(tok_of(e))) if c['ecb'] else None
     res = bp.MapResult(cache, c['k'], c['n'], cb, ecb)
     job = res._job
@@ -126,7 +140,7 @@ def run_map(c):
                 outs.append(['unit'])
             elif kind == 'get':
                 try:
-                    outs.append(['list', list(res.get(timeout=0))])
+                    outs.append(['list', jl(res.get(timeout=0))])
                 except BTimeoutError:
                     outs.append(['timeout'])
                 except ExceptionWithTraceback as exc:
@@ -134,7 +148,7 @@ def run_map(c):
         except (TypeError, IndexError, KeyError) as exc:
             outs.append(['exn', exn_name(exc)])
     v = res._value
-    value = ['list', list(v)] if isinstance(v, list) else ['err', tok_of(v)]
+    value = ['list', jl(v)] if isinstance(v, list) else ['err', tok_of(v)]
     return dict(outs=outs, success=bool(res._success), value=value, ready=res.ready(),
                 cb=cbs, ecb=ecbs, left=res._number_left, incache=job in cache,
                 accepted=[bool(x) for x in res._accepted])
@@ -147,12 +161,14 @@ def mk_item(it):
 
 def obs_item(obj):
     ok, v = obj
-    return ['good', v] if ok else ['bad', tok_of(v)]
+    if not ok:
+        return ['bad', tok_of(v)]
+    return ['good', jl(v) if isinstance(v, (list, tuple)) else jv(v)]
 
 
 def do_next(fn):
     try:
-        return ['yield', fn()]
+        return ['yield', jv(fn())]
     except StopIteration:
         return ['stop']
     except BTimeoutError:
@@ -262,7 +278,7 @@ def run_flat(c):
 def run_apply(c):
     cache = {}
     cbs, ecbs = [], []
-    cb = (lambda v: cbs.append(v)) if c['cb'] else None
+    cb = (lambda v: cbs.append(jv(v))) if c['cb'] else None
     ecb = (lambda e: ecbs.append(tok_of(e))) if c['ecb'] else None
     res = bp.ApplyResult(cache, cb, error_callback=ecb)
     job = res._job
@@ -282,7 +298,7 @@ def run_apply(c):
             outs.append(['unit'])
         else:
             try:
-                outs.append(['yield', res.get(timeout=0)])
+                outs.append(['yield', jv(res.get(timeout=0))])
             except BTimeoutError:
                 outs.append(['timeout'])
             except ExceptionWithTraceback as exc:
